@@ -641,3 +641,25 @@ Proof.
   rewrite fms_fixed_ok. cbn [bind res_opt C20_summary_check s_med4 s_q1_4 s_q3_4 s_iqr4 s_lf4 s_uf4].
   unfold med2. rewrite !andb_true_iff. repeat split; lia.
 Qed.
+
+(* ------------------------------------------------------------------------------ *)
+(* 8. loader wired to the telemetry *)
+
+Lemma expected_spec_nonneg ups logs : 0 <= expected_spec ups logs.
+Proof.
+  unfold expected_spec. apply sumZ_nonneg, Forall_forall. intros x Hx. apply in_map_iff in Hx.
+  destruct Hx as [u [<- _]]. unfold zlen. destruct (negb (gu_expected u)); [lia|].
+  destruct (N.eqb (gu_type u) 0); [lia|]. destruct (N.eqb (gu_type u) 1); lia.
+Qed.
+
+Lemma wired_verdict_spec ups logs loads : Forall (fun k => 0 <= k) loads ->
+  wired_verdict ups logs loads = verdict_spec [(expected_spec ups logs, loads)].
+Proof.
+  intro H. unfold wired_verdict. rewrite expected_performs_spec.
+  apply (verdict_is_spec [(expected_spec ups logs, loads)]).
+  intros p [<-|[]]. cbn [fst snd]. split; [apply expected_spec_nonneg | exact H].
+Qed.
+
+Lemma C20_wired_check_sound ups logs loads obs :
+  C20_wired_check ups logs loads obs = true -> obs = verdict_spec [(expected_spec ups logs, loads)].
+Proof. unfold C20_wired_check. intro H. apply eqb_prop in H. exact H. Qed.
